@@ -62,7 +62,7 @@ Definition x_build_prog := build_prog bits_ops.
 Definition x_inhabitsb := inhabitsb bits_ops.
 Extraction "model_shape.ml" x_builds x_build_accepts x_build_accepts_prog x_build_accepts_named
   x_build_accepts_let_named x_conforms x_conforms_strict x_constraint_grammar x_literal_value x_check
-  x_build_prog narrow narrow_st derive derive_st check_stmts x_inhabitsb shape_eqb.
+  x_build_prog narrow narrow_st derive derive_st check_stmts x_inhabitsb shape_eqb known_c07 known_c07_wide fragment_prog cstmts_of.
 
 (* C12: the xml converter, the EventWriter and an independent XML 1.0 reader *)
 Extraction "model_xml.ml" to_xml_r to_xml xml_emit_r xml_emit xml_output xml_parse tree_of_doc tree_of_events
